@@ -9,7 +9,10 @@ level `cfg` — the window a fresh `Server`/`Client` connection carries for `Con
   observed : as above
 level `rx`  — the post-handshake receive paths of a real connection pair:
   case     : `lvl=rx path=readfrom|read|mix suite=gcm|cbc role=server|client cfg=<int> sent=<k> [repoch=<n>]
-              [skip=<j>.<n>,...] [plen=<L>] script=<item>,...`
+              [skip=<j>.<n>,...] [plen=<L>] [pcw=<base>] script=<item>,...`
+             `pcw=<base>` (role=server): the listener's Config has ReplayWindow <base> and a
+             GetConfigForClient that returns a Config with ReplayWindow `cfg`; `cfg` is always the
+             value of the Config that governs the receiving connection — the size the spec uses.
              items (see harness/cmd/c16/rx.go): `g<i>` record i as sent, `q` the close_notify record,
              `f<i>` `c<i>` bit flips, `s<i>.<n>` / `e<i>.<n>` / `v<i>` rewritten sequence number /
              epoch / version, `t<i>` truncated, `o<i>` oversize length, `z` short junk,
@@ -267,7 +270,14 @@ def judgeRx (ct : List String) (o : String) : Option Verdict := do
   -- `repoch=<n>`: a hook moved the receiver's read epoch to n before the script (exercises the
   -- two epoch branches with authentic records); the property is only judged without it
   let repoch := (kvNat ct "repoch").getD 1
-  let st0 := { DtlcpRx.afterHandshake P cfg with readEpoch := repoch }
+  -- `pcw=<base>`: the receiving server was created with a listener Config whose ReplayWindow is
+  -- <base>; its GetConfigForClient installed the Config with ReplayWindow `cfg` during the handshake
+  let pcw : Option Int := (kv ct "pcw").bind parseInt
+  if (kv ct "pcw").isSome && (pcw.isNone || kv ct "role" != some "server") then none
+  let hs0 := match pcw with
+    | some base => DtlcpRx.afterHandshakeGov P base (some cfg)
+    | none => DtlcpRx.afterHandshakeGov P cfg none
+  let st0 := { hs0 with readEpoch := repoch }
   let (m, steps) := runMix L plen (DtlcpRx.Mix.start st0) elems
   let inerr := match m.st.err with
     | none => "none"
@@ -291,6 +301,7 @@ def judgeRx (ct : List String) (o : String) : Option Verdict := do
   let forgedN := (elems.filter fun e => match e with | .deliver _ .forged => true | _ => false).length
   let note :=
     if repoch != 1 then "rx-epoch-hook"
+    else if pcw.isSome then "rx-per-client-config"
     else if pathS == "mix" then "rx-mixed-calls"
     else if !skips.isEmpty then "rx-seq-skip"
     else if forgedN == 0 then "rx-no-forgery" else ""
